@@ -66,6 +66,25 @@ def main():
                                                   ' '.join('`%s`' % c.split(':', 1)[1] for c in cls[:3])))
     out.append('')
     out.append('Totals: ' + ', '.join('%s %d' % kv for kv in sorted(cnt.items())) + '.\n')
+    out.append('### 14.3 Behaviour-preserving refactorings written by independent sub-agents (`/verif/refactors/`)\n')
+    out.append('Each was asked to rewrite the anchored code substantially while keeping the property; all seven quick '
+               'checks are run against each and must stay green.  "first run" lists the checks that were red when the '
+               'refactoring was first tried; the triage of each red result is in its `meta.json`.\n')
+    out.append('| id | first run | now | triage |')
+    out.append('|----|-----------|-----|--------|')
+    nref = ngreen = 0
+    for mp in sorted(glob.glob(os.path.join(VERIF, 'refactors', '*', 'meta.json'))):
+        m = json.load(open(mp))
+        rel = os.path.relpath(os.path.join(os.path.dirname(mp), 'patch.diff'), VERIF)
+        r = by.get(rel)
+        now = ('red: ' + ', '.join(r['caught_by'])) if (r and r['caught_by']) else ('green' if r else
+                                                                                 ('green' if not m.get('red') else 'red: ' + ', '.join(m['red'])))
+        nref += 1
+        ngreen += 1 if now == 'green' else 0
+        out.append('| %s | %s | %s | %s |' % (m['id'], ('red: ' + ', '.join(m['first_run_red'])) if m.get('first_run_red') else 'green',
+                                             now, (m.get('triage') or '').replace('|', '/')))
+    out.append('')
+    out.append('Totals: %d refactorings, %d green now.\n' % (nref, ngreen))
     text = '\n'.join(out)
     p = os.path.join(VERIF, 'DESIGN.md')
     s = open(p).read()
